@@ -214,6 +214,14 @@ def py_facts():
     # which class attribute is the limit, for a child that is a tree / a leaf: the
     # assignments to max_size are followed through if statements, conditional
     # expressions and locals that name the child-kind test
+    # the local that holds the limit: the other side of the comparison with the child's size
+    limvar = "max_size"
+    for c in ast.walk(s):
+        if isinstance(c, ast.Compare) and len(c.ops) == 1:
+            for a, b in ((c.left, c.comparators[0]), (c.comparators[0], c.left)):
+                if isinstance(b, ast.Name) and any(isinstance(x, ast.Attribute) and x.attr == "size"
+                                                   for x in ast.walk(a)):
+                    limvar = b.id
     KIND_TESTS = ("type(child) is type(self)", "type(self) is type(child)", "isinstance(child, type(self))",
                   "type(child) is self.__class__")
     LEAF_TESTS = ("type(child) is self._bucket_type", "isinstance(child, self._bucket_type)")
@@ -222,11 +230,23 @@ def py_facts():
         if isinstance(a, ast.Assign) and len(a.targets) == 1 and isinstance(a.targets[0], ast.Name):
             one_def.setdefault(a.targets[0].id, []).append(a.value)
 
+    class _Sub(ast.NodeTransformer):
+        def visit_Name(self, n):
+            d = one_def.get(n.id, ())
+            if isinstance(n.ctx, ast.Load) and len(d) == 1 and pyfront.unparse(d[0]) in (
+                    "type(self)", "self._bucket_type", "self.__class__"):
+                return d[0]
+            return n
+
+    def _subst_locals(t):
+        import copy as _copy
+        return _Sub().visit(_copy.deepcopy(t))
+
     def kind_cond(t, is_tree, depth=0):
         if isinstance(t, ast.UnaryOp) and isinstance(t.op, ast.Not):
             v = kind_cond(t.operand, is_tree, depth)
             return None if v is None else not v
-        u = pyfront.unparse(t)
+        u = pyfront.unparse(_subst_locals(t))
         if u in KIND_TESTS:
             return is_tree
         if u in LEAF_TESTS:
@@ -255,7 +275,7 @@ def py_facts():
                         walk(st.orelse)
                     else:
                         walk(st.body if c else st.orelse)
-                elif isinstance(st, ast.Assign) and pyfront.unparse(st.targets[0]) == "max_size":
+                elif isinstance(st, ast.Assign) and pyfront.unparse(st.targets[0]) == limvar:
                     found[0] = val(st.value)
                 elif isinstance(st, (ast.For, ast.While, ast.Try, ast.With)):
                     for sub in ast.iter_child_nodes(st):
@@ -267,7 +287,7 @@ def py_facts():
     facts["_tree"] = limit_of(True)
     facts["_leaf"] = limit_of(False)
     for c in ast.walk(s):
-        if isinstance(c, ast.Compare) and pyfront.unparse(c.comparators[0]) == "max_size":
+        if isinstance(c, ast.Compare) and pyfront.unparse(c.comparators[0]) == limvar:
             op = {ast.Gt: ">", ast.GtE: ">=", ast.Lt: "<", ast.LtE: "<="}.get(type(c.ops[0]))
             lhs = pyfront.unparse(c.left)
             facts["tree_child"] = (op, facts.get("_tree")) + (() if lhs == "child.size" else ("compares " + lhs,))
@@ -287,9 +307,23 @@ def py_facts():
             if a.id in [x.arg for x in fn.args.args] and a.id in ("data",):
                 return True
         return False
+    def _guard_negated(c, fn):
+        """the comparison is the test of `if T: return` in front of the split"""
+        par = getattr(c, "_parent", None)
+        while par is not None and not isinstance(par, ast.If):
+            if isinstance(par, ast.UnaryOp) and isinstance(par.op, ast.Not):
+                return None          # not handled: leave to the caller
+            par = getattr(par, "_parent", None)
+        if isinstance(par, ast.If) and par.test is c and not par.orelse and len(par.body) == 1 and \
+                isinstance(par.body[0], ast.Return):
+            return True
+        return False
+    NEG = {">": "<=", ">=": "<", "<": ">=", "<=": ">"}
     for c in ast.walk(g):
         if isinstance(c, ast.Compare) and _is_len_of_data(c.left, g):
             op = {ast.Gt: ">", ast.GtE: ">=", ast.Lt: "<", ast.LtE: "<="}.get(type(c.ops[0]))
+            if _guard_negated(c, g):
+                op = NEG.get(op, op)
             r = c.comparators[0]
             if isinstance(r, ast.BinOp) and isinstance(r.op, ast.Mult):
                 a, b = r.left, r.right
